@@ -2315,6 +2315,7 @@ impl<'a> G<'a> {
             order_by: vec![],
             limit: None,
             offset: None,
+            having: None,
         }))
     }
 
